@@ -385,6 +385,9 @@ fn shape_fragments() -> Vec<(&'static str, &'static str)> {
         ("type-rec-single", "(rec (type (func (param i32))))"),
         ("type-rec-empty", "(rec)"),
         ("func-locals", "(func (param i32) (local i32 i32 i64 f32 f32) (local v128) (drop (local.get 6)))"),
+        // the same local type in two runs that are not adjacent, every local used at its own type
+        ("func-locals-split-runs", "(func (param f32) (local i32 i64 i32 f64 i64) (local.set 1 (i32.const 1)) (local.set 2 (i64.const 2)) (local.set 3 (i32.const 3)) (local.set 4 (f64.const 4)) (local.set 5 (i64.const 5)) (drop (i64.add (local.get 2) (local.get 5))) (drop (i32.add (local.get 1) (local.get 3))))"),
+        ("func-locals-ref-runs", "(func (local funcref externref funcref (ref null $v)) (local.set 0 (ref.null func)) (local.set 1 (ref.null extern)) (local.set 2 (ref.func $f)) (local.set 3 (ref.null $v)))"),
         ("func-multi-value", "(func (result i32 i64) (i32.const 1) (i64.const 2))"),
         ("func-block-type-idx", "(type $bt (func (param i32) (result i32 i32))) (func (i32.const 0) (block (type $bt) (i32.const 1)) drop drop)"),
         ("func-br-table", "(func (param i32) (block (block (br_table 0 1 0 (local.get 0)))))"),
@@ -416,6 +419,9 @@ fn shape_fragments() -> Vec<(&'static str, &'static str)> {
         ("t64-elem-active-mixed", "(table $t64 i64 2 funcref) (elem (table $t64) (i64.const 0) func $f) (elem (table $t) (i32.const 0) func $f)"),
         ("names-func-local", "(func $named (param $p i32) (local $l i64) (block $lbl))"),
         ("names-module", "(@name \"modname\")"),
+        // named function imports behind imports of other kinds (import position != function index)
+        ("names-import-func-after-others", "(import \"e\" \"m9\" (memory 1)) (import \"e\" \"fj\" (func $named_import_j (type $v))) (import \"e\" \"t9\" (table 1 funcref)) (import \"e\" \"fk\" (func $named_import_k (type $v)))"),
+        ("names-all-kinds", "(global $named_g i32 (i32.const 1)) (memory $named_m 1) (table $named_t 1 funcref) (tag $named_tag) (data $named_d \"x\") (elem $named_e func $f) (type $named_ty (func (param i32)))"),
         ("custom-a", "(@custom \"a\" \"payload\")"),
         ("custom-before-first", "(@custom \"bf\" (before first) \"1\")"),
         ("custom-after-code", "(@custom \"ac\" (after code) \"22\")"),
